@@ -50,8 +50,15 @@ pub fn query<A: HC>(q: &str, t: &mut Toks) -> R<String> {
                     _ => "none".into(),
                 }
             };
+            let forms = match sym {
+                Some(s) => match catch_unwind(move || A::sym_to_forms(s)) {
+                    Ok(f) => f,
+                    Err(_) => "panic".to_string(),
+                },
+                None => "-".to_string(),
+            };
             format!(
-                "{} {} {} {} {} {} {} {} {}",
+                "{} {} {} {} {} {} {} {} {} {forms}",
                 A::BITS,
                 osym::<A>(move || A::try_from_bits(b)),
                 osym::<A>(move || Some(A::unsafe_from_bits(b))),
@@ -100,12 +107,16 @@ fn terr<A: Codec, B: Codec>(e: &TranslationError<A, B>) -> &'static str {
     }
 }
 
-fn codon_table<A: HC>(t: &mut Toks) -> R<String> {
+fn codon_table<A: HC>(t: &mut Toks, keys_are_values: bool) -> R<String> {
     let n = t.num()?;
     let mut entries: Vec<(Seq<A>, Amino)> = vec![];
     for _ in 0..n {
-        let h = t.hex()?;
-        let codon = Seq::<A>::try_from(h.as_slice())?;
+        let codon = if keys_are_values {
+            eval_v::<A>(&parse_v(t)?)?
+        } else {
+            let h = t.hex()?;
+            Seq::<A>::try_from(h.as_slice())?
+        };
         let a = item::<Amino>(t.num()?);
         entries.push((codon, a));
     }
@@ -243,8 +254,10 @@ pub fn special(codec: &str, q: &str, t: &mut Toks) -> Option<R<String>> {
             }
             (_, "derive") => derive_query(t)?,
             (_, "declsrc") => decl_source(t)?,
-            ("dna", "codontable") => codon_table::<Dna>(t)?,
-            ("iupac", "codontable") => codon_table::<Iupac>(t)?,
+            ("dna", "codontable") => codon_table::<Dna>(t, false)?,
+            ("iupac", "codontable") => codon_table::<Iupac>(t, false)?,
+            ("dna", "codontablev") => codon_table::<Dna>(t, true)?,
+            ("iupac", "codontablev") => codon_table::<Iupac>(t, true)?,
             _ => return Err(Fail::BadOp("nospecial".into())),
         })
     })())
